@@ -202,6 +202,39 @@ def macroLoop : Nat → P Unit
 def pseudoBranch (i : String) (m : FTok) (a b : W Reg) (l : W String) : P Node := do
   pure (.branch (wi i m) a b l (← rawNow))
 
+/-- expansion of the pseudo-instructions with a destination and one source register -/
+def pseudoRR (sub : String) (m : FTok) (rd rs1 : W Reg) (raw : RawTok) : Option Node :=
+  match sub with
+  | "Mv" => some (.iarith (wi "Addi" m) rd rs1 (imm0 m) raw)
+  | "Neg" => some (.arith (wi "Sub" m) rd (x0 m) rs1 raw)
+  | "Not" => some (.iarith (wi "Xori" m) rd rs1 ⟨-1#32, m⟩ raw)
+  | "Seqz" => some (.iarith (wi "Sltiu" m) rd rs1 ⟨1#32, m⟩ raw)
+  | "Snez" => some (.arith (wi "Sltu" m) rd (x0 m) rs1 raw)
+  | "Sgtz" => some (.arith (wi "Slt" m) rd (x0 m) rs1 raw)
+  | "Sltz" => some (.arith (wi "Slt" m) rd rs1 (x0 m) raw)
+  | _ => none
+
+/-- expansion of the compare-with-zero branches: (base branch, first operand, second operand) -/
+def pseudoBZ (sub : String) (m : FTok) (r : W Reg) : Option (String × W Reg × W Reg) :=
+  match sub with
+  | "Beqz" => some ("Beq", r, x0 m)
+  | "Bnez" => some ("Bne", r, x0 m)
+  | "Bltz" => some ("Blt", r, x0 m)
+  | "Bgtz" => some ("Blt", x0 m, r)
+  | "Bgez" => some ("Bge", r, x0 m)
+  | "Blez" => some ("Bge", x0 m, r)
+  | "Sgez" => some ("Bge", x0 m, r)
+  | _ => none
+
+/-- expansion of the swapped two-register branches -/
+def pseudoB2 (sub : String) (a b : W Reg) : Option (String × W Reg × W Reg) :=
+  match sub with
+  | "Bgt" => some ("Blt", b, a)
+  | "Ble" => some ("Bge", b, a)
+  | "Bgtu" => some ("Bltu", b, a)
+  | "Bleu" => some ("Bgeu", b, a)
+  | _ => none
+
 /-- Parse one statement whose mnemonic token `m` names instruction variant `v`. -/
 def parseInst (m : FTok) (v : String) : P Node := do
   match instType v with
@@ -324,9 +357,11 @@ def parseInst (m : FTok) (v : String) : P Node := do
   | "Pseudo" =>
     match sub with
     | "Ret" => do pure (.jumpLinkR (wi "Jalr" m) (x0 m) (x1 m) (imm0 m) (← rawNow))
-    | "Mv" => do
+    | "Mv" | "Neg" | "Not" | "Seqz" | "Snez" | "Sgtz" | "Sltz" => do
       let rd ← getReg; let rs1 ← getReg
-      pure (.iarith (wi "Addi" m) rd rs1 (imm0 m) (← rawNow))
+      match pseudoRR sub m rd rs1 (← rawNow) with
+      | some n => pure n
+      | none => throw (.unexpectedError m)
     | "Li" => do
       let rd ← getReg; let imm ← getImm
       pure (.iarith (wi "Addi" m) rd (x0 imm.tok) imm (← rawNow))
@@ -339,39 +374,20 @@ def parseInst (m : FTok) (v : String) : P Node := do
     | "Jr" => do
       let rs1 ← getReg
       pure (.jumpLinkR (wi "Jalr" m) (x0 m) rs1 (imm0 m) (← rawNow))
-    | "Beqz" => do let r ← getReg; let l ← getLabel; pseudoBranch "Beq" m r (x0 m) l
-    | "Bnez" => do let r ← getReg; let l ← getLabel; pseudoBranch "Bne" m r (x0 m) l
-    | "Bltz" => do let r ← getReg; let l ← getLabel; pseudoBranch "Blt" m r (x0 m) l
-    | "Bgtz" => do let r ← getReg; let l ← getLabel; pseudoBranch "Blt" m (x0 m) r l
-    | "Bgez" => do let r ← getReg; let l ← getLabel; pseudoBranch "Bge" m r (x0 m) l
-    | "Blez" => do let r ← getReg; let l ← getLabel; pseudoBranch "Bge" m (x0 m) r l
-    | "Sgez" => do let r ← getReg; let l ← getLabel; pseudoBranch "Bge" m (x0 m) r l
-    | "Neg" => do
-      let rd ← getReg; let rs1 ← getReg
-      pure (.arith (wi "Sub" m) rd (x0 m) rs1 (← rawNow))
-    | "Not" => do
-      let rd ← getReg; let rs1 ← getReg
-      pure (.iarith (wi "Xori" m) rd rs1 ⟨-1#32, m⟩ (← rawNow))
-    | "Seqz" => do
-      let rd ← getReg; let rs1 ← getReg
-      pure (.iarith (wi "Sltiu" m) rd rs1 ⟨1#32, m⟩ (← rawNow))
-    | "Snez" => do
-      let rd ← getReg; let rs1 ← getReg
-      pure (.arith (wi "Sltu" m) rd (x0 m) rs1 (← rawNow))
+    | "Beqz" | "Bnez" | "Bltz" | "Bgtz" | "Bgez" | "Blez" | "Sgez" => do
+      let r ← getReg; let l ← getLabel
+      match pseudoBZ sub m r with
+      | some (i, a, b) => pseudoBranch i m a b l
+      | none => throw (.unexpectedError m)
     | "Nop" => do pure (.iarith (wi "Addi" m) (x0 m) (x0 m) (imm0 m) (← rawNow))
-    | "Sgtz" => do
-      let rd ← getReg; let rs1 ← getReg
-      pure (.arith (wi "Slt" m) rd (x0 m) rs1 (← rawNow))
-    | "Sltz" => do
-      let rd ← getReg; let rs1 ← getReg
-      pure (.arith (wi "Slt" m) rd rs1 (x0 m) (← rawNow))
     | "Call" => do
       let label ← getLabel
       pure (.jumpLink (wi "Jal" m) (x1 m) label (← rawNow))
-    | "Bgt" => do let a ← getReg; let b ← getReg; let l ← getLabel; pseudoBranch "Blt" m b a l
-    | "Ble" => do let a ← getReg; let b ← getReg; let l ← getLabel; pseudoBranch "Bge" m b a l
-    | "Bgtu" => do let a ← getReg; let b ← getReg; let l ← getLabel; pseudoBranch "Bltu" m b a l
-    | "Bleu" => do let a ← getReg; let b ← getReg; let l ← getLabel; pseudoBranch "Bgeu" m b a l
+    | "Bgt" | "Ble" | "Bgtu" | "Bleu" => do
+      let a ← getReg; let b ← getReg; let l ← getLabel
+      match pseudoB2 sub a b with
+      | some (i, x, y) => pseudoBranch i m x y l
+      | none => throw (.unexpectedError m)
     | "Csrci" | "Csrsi" | "Csrwi" => do
       let csr ← getCsrImm; let imm ← getImm
       let i := if sub == "Csrci" then "Csrrci" else if sub == "Csrsi" then "Csrrsi" else "Csrrwi"
